@@ -163,6 +163,9 @@ def scenarios(tier):
         ok = T('ok')
         out.append((f'{T.__name__}:fail-leaf', [T('dep', (bad, ok)), T('ign', (bad, ok), 'ignore'), ok], []))
         out.append((f'{T.__name__}:exit-leaf', [T('dep', (T('bad', (), 'exit'), ok)), ok], []))
+        # a failure two and three levels below the top, and in the middle of a chain (every level above must still be dealt with)
+        out.append((f'{T.__name__}:fail-deep', [T('top', (T('mid', (T('low', (bad,)), ok)),)), ok], []))
+        out.append((f'{T.__name__}:fail-mid', [T('top', (T('mid', (ok,), 'fail'),)), T('side', (ok,))], []))
     # failures of a max_parallel-limited type with more work of that type pending
     out.append(('B:limited-type-failure', [B('bad', (), 'fail'), B('ok1'), B('ok2'), A('free')], []))
     out.append(('B:limited-type-failure-dep', [B('t', (B('bad', (), 'fail'),)), B('ok1')], []))
@@ -486,11 +489,28 @@ class Lim(object):
         mark(f'end-{type(self).__name__}-{self.n}')
         return self.n
 
+@labtech.task(max_parallel=1)
+class CLim:          # cacheable AND limited: a bust_cache re-run of cached instances is a real execution and stays limited
+    n: int
+    secs: float = 0.5
+    def run(self):
+        mark(f'start-{type(self).__name__}-{self.n}')
+        time.sleep(self.secs)
+        mark(f'end-{type(self).__name__}-{self.n}')
+        return self.n
+
 @labtech.task(cache=None)
 class Die:
     n: int
+    how: str = 'kill'
     def run(self):
         mark(f'start-Die-{self.n}')
+        if self.how == 'exit':          # the worker ends by itself without reporting anything
+            os._exit(3)
+        if self.how == 'exit0':
+            os._exit(0)
+        if self.how == 'unpicklable':   # the result cannot be sent back: the worker ends with a traceback and no report
+            return (x for x in ())
         os.kill(os.getpid(), signal.SIGKILL)
 
 @labtech.task
@@ -509,6 +529,8 @@ def main():
         'death-then-work': [Die(0)] + [Slow(i, 0.5) for i in range(4)],
         'all-die-one-worker': [Die(0), Quick(1), Quick(2)],
         'death-with-monitor': [Die(0), Slow(1, 0.5), Quick(2), Die(3)],
+        'bust-limited': [CLim(i) for i in range(4)] + [Slow(9, 0.5)],
+        'self-exit': [Die(0, 'exit'), Die(1, 'exit0'), Die(2, 'unpicklable'), Quick(3), Slow(4, 0.5)],
     }[scen]
     with tempfile.TemporaryDirectory() as d:
         storage = d
@@ -520,10 +542,18 @@ def main():
                     return super().exists(key)
             storage = SlowStorage(d)
         lab = labtech.Lab(storage=storage, runner_backend=backend, max_workers=workers, continue_on_failure=True)
+        bust = False
+        if scen == 'bust-limited':
+            # first fill the cache (marks of that run are discarded), then re-execute everything with bust_cache=True
+            lab.run_tasks(tasks, disable_progress=True, disable_top=True)
+            for f in os.listdir(MARKS):
+                if not f.endswith('.py'):
+                    os.remove(os.path.join(MARKS, f))
+            bust = True
         t0 = time.time()
         show = scen == 'death-with-monitor'       # progress bars and the top-style monitor enabled (the run_tasks defaults)
         try:
-            res = lab.run_tasks(tasks, disable_progress=not show, disable_top=not show)
+            res = lab.run_tasks(tasks, bust_cache=bust, disable_progress=not show, disable_top=not show)
         except BaseException as ex:
             print()
             print(json.dumps(dict(returned=-1, raised=f'{type(ex).__name__}: {ex}'[:200], secs=round(time.time() - t0, 2))))
@@ -572,6 +602,32 @@ def run_real(scen, backend, workers, timeout=40):
     return dict(hung=hung, out=out, peak=peak, peak_by=peak_by, secs=round(time.time() - t0, 1), events=len(evs), evs=evs)
 
 
+def serial_thread():
+    """The serial backend executes one task at a time in the caller's process AND thread."""
+    import threading
+    import labtech
+    import replay.universe as U
+    logging.getLogger('labtech').setLevel(logging.CRITICAL)
+    tasks = [U.ThreadProbe(f'p{i}', 0.05) for i in range(4)]
+    tasks.append(U.ThreadProbe('top', 0.0, tuple(tasks[:2])))
+    with tempfile.TemporaryDirectory() as d:
+        lab = labtech.Lab(storage=d, runner_backend='serial', max_workers=3)
+        res = lab.run_tasks(tasks, disable_progress=True, disable_top=True)
+    spans = []
+    for t in tasks:
+        r = res.get(t)
+        if r is None:
+            return f'serial: {t} has no result'
+        if r['pid'] != os.getpid() or r['thread'] != threading.get_ident():
+            return f'serial backend: {t} ran in pid {r["pid"]} thread {r["thread"]}; the caller of run_tasks is pid {os.getpid()} thread {threading.get_ident()}'
+        spans.append((r['t0'], r['t1']))
+    spans.sort()
+    for (a0, a1), (b0, b1) in zip(spans, spans[1:]):
+        if b0 < a1:
+            return 'serial backend: two tasks were executing at the same time'
+    return None
+
+
 def explore_real(tier, props):
     found, runs = [], 0
     backends = ['fork'] if tier == 'quick' else ['fork', 'spawn']
@@ -595,6 +651,17 @@ def explore_real(tier, props):
             runs += 1
             if r['peak'] > 2:
                 found.append(dict(prop='C04', scenario=f'real/{backend}/quick-then-slow', message=f'{r["peak"]} task processes executing at once with max_workers=2'))
+        if props & {'C04'}:
+            r = run_real('bust-limited', backend, 4)
+            runs += 1
+            if r['peak_by'].get('CLim', 0) > 1:
+                found.append(dict(prop='C04', scenario=f'real/{backend}/bust-limited', message=f'run_tasks(bust_cache=True) over cached tasks of a max_parallel=1 type: {r["peak_by"]["CLim"]} of them executing at once'))
+            elif r['events'] < 10 and not r['hung']:
+                found.append(dict(prop='C03', scenario=f'real/{backend}/bust-limited', message=f'run_tasks(bust_cache=True) over 5 cached tasks left {r["events"]} start/end marks (expected 10): {r["out"][:150]}'))
+            w = serial_thread()
+            runs += 1
+            if w:
+                found.append(dict(prop='C04', scenario='real/serial/thread', message=w))
         if props & {'C05', 'C11', 'C10'}:
             r = run_real('death-then-work', backend, 2)
             runs += 1
@@ -609,6 +676,12 @@ def explore_real(tier, props):
             elif '"returned": 2' not in r['out']:
                 found.append(dict(prop='C10', scenario=f'real/{backend}/death-with-monitor',
                                   message=f'with the task monitor enabled and two killed task processes, run_tasks(continue_on_failure=True) should return the 2 healthy tasks; got {r["out"][:200]}'))
+            r = run_real('self-exit', backend, 2, timeout=40)
+            runs += 1
+            if r['hung']:
+                found.append(dict(prop='C11', scenario=f'real/{backend}/self-exit', message='run_tasks did not terminate within 40s after task processes ended by themselves without reporting (os._exit(3), os._exit(0), unpicklable result)'))
+            elif '"returned": 2' not in r['out']:
+                found.append(dict(prop='C10', scenario=f'real/{backend}/self-exit', message=f'three task processes ended without reporting; run_tasks(continue_on_failure=True) should return the 2 healthy tasks; got {r["out"][:200]}'))
             r = run_real('all-die-one-worker', backend, 1, timeout=25)
             runs += 1
             if r['hung']:
@@ -737,7 +810,7 @@ def main():
             found2, runs = explore_real(a.tier, {a.prop} if a.prop else {'C04', 'C05', 'C10', 'C11'})
             mine2 = [f for f in found2 if not a.prop or f['prop'] == a.prop]
             items.append(dict(name='explore:real-process-backends', bounded=True,
-                              bound=f'{runs} timed runs with real worker processes (peak concurrency from start/end marks; worker death by SIGKILL; watchdog)',
+                              bound=f'{runs} timed runs with real worker processes (peak concurrency from start/end marks; worker death by SIGKILL, os._exit and an unpicklable result; watchdog)',
                               violation=bool(mine2), witness=mine2[:3]))
     except Exception:
         items.append(dict(name='explore', bounded=True, violation=False, error=traceback.format_exc()[-1500:]))
